@@ -229,6 +229,7 @@ func vfExec(ops []string, o *vu.Out, c13 bool) {
 		}
 		newOp, res := c.run(t, op, o)
 		o.Op(newOp, res)
+		c.checkTree(o)
 	}
 }
 
@@ -613,6 +614,48 @@ func (c *vfCase) pop(o *vu.Out) (string, string) {
 		c.oracleC13(o, p.sid, sendable, toggleBefore, line)
 	}
 	return opLine, line
+}
+
+// checkTree is the white-box tie for the hypothesis of the conditional RFC 7540 theorem
+// (C12.holds_p7540_of_reach): after every call, every node in ws.nodes is reachable from the root through
+// kids/next links within len(ws.nodes) steps, and nothing else is.
+func (c *vfCase) checkTree(o *vu.Out) {
+	ws, ok := c.ws.(*priorityWriteSchedulerRFC7540)
+	if !ok || c.broken {
+		return
+	}
+	seen := map[*priorityNodeRFC7540]bool{}
+	bad := ""
+	var walk func(n *priorityNodeRFC7540, depth int)
+	walk = func(n *priorityNodeRFC7540, depth int) {
+		if bad != "" {
+			return
+		}
+		if seen[n] || depth > len(ws.nodes) {
+			bad = fmt.Sprintf("node %d visited twice or too deep (cycle)", n.id)
+			return
+		}
+		seen[n] = true
+		if ws.nodes[n.id] != n {
+			bad = fmt.Sprintf("node %d hangs in the tree but is not in ws.nodes", n.id)
+			return
+		}
+		for k := n.kids; k != nil; k = k.next {
+			if k.parent != n {
+				bad = fmt.Sprintf("node %d is a kid of %d but its parent pointer differs", k.id, n.id)
+				return
+			}
+			walk(k, depth+1)
+		}
+	}
+	walk(&ws.root, 0)
+	if bad == "" && len(seen) != len(ws.nodes) {
+		bad = fmt.Sprintf("%d nodes in ws.nodes but %d reachable from the root", len(ws.nodes), len(seen))
+	}
+	if bad != "" {
+		c.fail(o, "priority tree: "+bad)
+	}
+	o.Stat("p7540:tree-checked")
 }
 
 // oracleC13 states C13 on the implementation after a Pop that served stream sid.
